@@ -49,6 +49,34 @@ pub fn run(o: &Opts) -> i32 {
     }
     rws::entry_point::set_default_values();
     std::env::set_current_dir(&root).expect("chdir");
+    if let Some(bin) = o.get("bin") {
+        // wire surface: one real server per configuration, started with the policy in its environment
+        crate::d_wire::set_logdir(std::path::Path::new(&scratch));
+        for (gi, (_k, (cfg, cases))) in groups.iter().enumerate() {
+            let port = crate::d_wire::free_port();
+            let addr: std::net::SocketAddr = format!("127.0.0.1:{}", port).parse().unwrap();
+            let srv = match crate::d_wire::Srv::start(bin, std::path::Path::new(&root), &cors_env(cfg), &[format!("--port={}", port), "--thread-count=4".to_string()], &[addr], None, &format!("cors{}", gi)) {
+                Ok(s) => s,
+                Err(e) => {
+                    eprintln!("start failed: {}", e);
+                    return 2;
+                }
+            };
+            out.emit(&cfg_event(cfg));
+            for c in cases {
+                let raw = crate::d_wire::exchange(addr, &cors_request_bytes(c), std::time::Duration::from_secs(5)).unwrap_or_default();
+                let mut r = project(&raw, "head");
+                r["outcome"] = json!(if raw.is_empty() { "no_response" } else { "ok" });
+                let q = json!({"method": c["method"], "has_origin": c["has_origin"], "origin": c["origin"], "preflight": c["preflight"]});
+                out.emit(&json!({"ev":"Req","q":q,"r":r,"surface":"wire"}));
+            }
+            srv.stop();
+        }
+        let n = out.n;
+        out.finish();
+        eprintln!("cors (wire): {} events", n);
+        return 0;
+    }
     let res = on_named_thread("0", 8 << 20, move || {
         for (_k, (cfg, cases)) in groups.iter() {
             for (k, v) in cors_env(cfg) {
